@@ -7,6 +7,7 @@ import TrippyVerif.Model.BuilderIO
 import TrippyVerif.Model.Wire
 import TrippyVerif.Model.Channel
 import TrippyVerif.Model.TuiIO
+import TrippyVerif.Model.StackIO
 /-
 Line-protocol driver: one request per input line, one answer per output line.
 The Rust harness (`/verif/harness`, binary `tvh`) runs the real trippy code on the same
@@ -19,6 +20,7 @@ requests; `/verif/check` diffs the two answer streams.
   cfgb build|cli …                          Builder::build / CLI validation model (C16)
   wire send|recv|tcp|cksum|slice|errmap …   the channel: probe encoding, response decoding (C02 C04 C11)
   chan connect|send|recv|clock …            Channel<S>: connect, send_probe, recv_probe, TCP probe list (stateful)
+  stack new|it|dump …                       Tracer::run = Channel + Strategy + State (stateful; C01 C09)
   tui new|data|key|frame …                  the TUI selection state machine (stateful; C17 C18)
   tid <pid> <i>                             the trace identifier the CLI assigns (C03)
   st cfg … / st it …                  the tracing state machine (stateful; C03 C06 C07 C08 C09)
@@ -30,6 +32,7 @@ structure DState where
   agg : Agg.DSt := {}
   tui : Tui.DSt := {}
   chan : Chan.DSt := {}
+  stack : Stack.DSt := {}
 
 def step (d : DState) (line : String) : DState × String :=
   match line.trimAscii.toString.splitOn " " with
@@ -55,6 +58,9 @@ def step (d : DState) (line : String) : DState × String :=
   | "chan" :: args =>
     let (c', out) := Chan.handle d.chan args
     ({ d with chan := c' }, out)
+  | "stack" :: args =>
+    let (s', out) := Stack.handle d.stack args
+    ({ d with stack := s' }, out)
   | "tui" :: args =>
     let (t', out) := Tui.handle d.tui args
     ({ d with tui := t' }, out)
